@@ -570,8 +570,10 @@ def check_result(cfg, rr: RunResult, out: Outcome, tag: str, step: int, fault=No
     if not np.array_equal(np.asarray(info["pressure"]), p.reshape(ref.shape, order="F")):
         bad.append("pressure")
     ps = float(np.max(np.abs(p))) + 1e-300
-    pin = abs(float(p[obj.constrained_cell_flat_index]))
-    if pin > 1e-8 * ps + 1e-12 + 10 * rmax and not stalled:
+    # the reference cell is the centre cell of the grid (documented; the reference model computes its flat index in the
+    # grid's own column-major numbering, independently of the library's attribute)
+    pin = abs(float(p[ref.center_cell_flat()]))
+    if pin > 1e-8 * ps + 1e-12 + 10 * rmax and not stalled and not coarse:
         bad.append("pressure-not-pinned")
     for name in bad:
         out.violate("C04.A", f"{name}", step, tag=tag, fault=fault, config=cfg)
